@@ -1,1 +1,189 @@
-(* placeholder, being written *)
+(* C08 - Supply series follow the calendar, the disruption schedule and the delays.
+   Statements about Model/Series.v (hand transliteration of the food_system supply classes, tied to /repo by the
+   correspondence check of harness/props/c08.py); proofs in Proofs/Series.v.
+   Supported horizons: multiples of 12 from 24 to 120 months. *)
+From Coq Require Import QArith List Bool Arith Lia.
+From Allfed Require Import Base.QSeries Model.Series Proofs.Series.
+Import ListNotations.
+Open Scope Q_scope.
+
+(* ---- exactly one value per simulated month *)
+Theorem c08_lengths : forall pw c g n,
+  List.length (outdoor_production pw c g) = cN c /\
+  (forall add a wd wr pct, (n <= List.length pct)%nat -> List.length (fish_series add n a wd wr pct) = n) /\
+  (forall d py, (d <= n)%nat -> List.length (demand_series n d py) = n) /\
+  (forall b ratios, In n supported_horizons -> List.length (grass_series n b ratios) = n) /\
+  (forall add d s nd f w, (n <= 1000)%nat -> List.length (scp_series add n d s nd f w) = n) /\
+  (forall add d s nd f w, (n <= 1000)%nat -> List.length (cs_series add n d s nd f w) = n) /\
+  (forall add d nf mf, List.length (seaweed_built_area add n d nf mf) = n) /\
+  (forall daily, List.length (seaweed_growth daily) = List.length daily).
+Proof.
+  intros pw c g n. repeat split; intros.
+  - apply outdoor_production_length.
+  - apply fish_length; assumption.
+  - apply demand_length; assumption.
+  - apply grass_length; assumption.
+  - apply scp_length; assumption.
+  - apply cs_length; assumption.
+  - apply built_area_length.
+  - unfold seaweed_growth. apply map_length.
+Qed.
+Print Assumptions c08_lengths.
+
+(* ---- outdoor crops: annual baseline (net of seed) x seasonality share of the calendar month (the simulation starts
+   in May: month m is calendar month (m + 4) mod 12, January = 0) x 4e6/1e9 x disruption ratio of the model year
+   (year 1 = 8 months May-December, years 2-9 = 12 months, year 10 = 16 months) *)
+Theorem c08_outdoor_closed_form : forall c m,
+  List.length (cseas c) = 12%nat -> List.length (crs c) = 9%nat -> cstart c = 5%nat ->
+  (m < cN c)%nat -> (cN c <= 120)%nat ->
+  nthq (norel_grown c) m ==
+  cbase c * (1 - seed_percent / 100) * nthq (cseas c) ((m + 4) mod 12) * 4000000 / 1000000000
+  * clamp0 (nthq (year1_ratio (cr1 c) (cseas c) (chbm c) :: crs c)
+                 (if (m <? 8)%nat then 0 else if (m <? 104)%nat then S ((m - 8) / 12) else 9)%nat).
+Proof.
+  intros c m Hl Hr Hs Hm HN. rewrite (norel_closed_form c m) by (try assumption; lia).
+  rewrite Hs. reflexivity.
+Qed.
+Print Assumptions c08_outdoor_closed_form.
+
+(* any starting month: the cycle is the January cycle rotated by start - 1 *)
+Theorem c08_calendar_rotation : forall c j, List.length (cseas c) = 12%nat -> (1 <= cstart c <= 12)%nat -> (j < 12)%nat ->
+  nthq (months_cycle c) j ==
+  nthq (cseas c) ((j + (cstart c - 1)) mod 12) * (cbase c * (1 - seed_percent / 100)) * 4000000 / 1000000000.
+Proof. exact months_cycle_nth. Qed.
+Print Assumptions c08_calendar_rotation.
+
+(* the year-1 ratio is never negative; the 120-entry table reads year_of m *)
+Theorem c08_year_blocks : forall y1 rs m, List.length rs = 9%nat -> (m < 120)%nat ->
+  List.length (year_blocks y1 rs) = 120%nat /\ nthq (year_blocks y1 rs) m = nthq (y1 :: rs) (year_of m) /\
+  forall r1 seas o, 0 <= year1_ratio r1 seas o.
+Proof.
+  intros y1 rs m Hl Hm. split; [apply year_blocks_length; exact Hl|].
+  split; [apply year_blocks_nth; assumption|apply year1_ratio_nonneg].
+Qed.
+Print Assumptions c08_year_blocks.
+
+Theorem c08_outdoor_nonneg : forall c, List.length (cseas c) = 12%nat -> (1 <= cstart c <= 12)%nat ->
+  all_nonneg (cseas c) -> 0 <= cbase c -> all_nonneg (norel_grown c).
+Proof. intros c Hl Hs Hn Hb. apply norel_nonneg. apply months_cycle_nonneg; assumption. Qed.
+Print Assumptions c08_outdoor_nonneg.
+
+(* scaling the crop baseline scales the series handed to the optimiser by exactly that factor (any power function) *)
+Theorem c08_outdoor_homogeneous : forall pw c g k m,
+  List.length (cseas c) = 12%nat -> List.length (crs c) = 9%nat -> (1 <= cstart c <= 12)%nat ->
+  (m < cN c)%nat -> (cN c <= 120)%nat ->
+  nthq (outdoor_production pw (set_base c (k * cbase c)) g) m == k * nthq (outdoor_production pw c g) m.
+Proof. exact production_homogeneous. Qed.
+Print Assumptions c08_outdoor_homogeneous.
+
+(* ---- fish *)
+Theorem c08_fish : forall n a wd wr pct m, (n <= List.length pct)%nat -> (m < n)%nat ->
+  nthq (fish_series true n a wd wr pct) m ==
+    a * 4000000 / 1000000000 / 12 * ((1 - wd / 100) * (1 - wr / 100)) * (nthq pct m / 100) /\
+  forall add k, nthq (fish_series add n (k * a) wd wr pct) m == k * nthq (fish_series add n a wd wr pct) m.
+Proof. intros. split; [apply fish_nth; assumption|intros; apply fish_homogeneous; assumption]. Qed.
+Print Assumptions c08_fish.
+
+(* ---- feed and biofuel demand: constant for `duration` months, then zero *)
+Theorem c08_demand : forall n d py m, (m < n)%nat ->
+  nthq (demand_series n d py) m == (if (m <? d)%nat then py / 12 * 4000000 / 1000000000 else 0) /\
+  forall k, nthq (demand_series n d (k * py)) m == k * nthq (demand_series n d py) m.
+Proof. intros. split; [apply demand_nth; assumption|intros; apply demand_homogeneous; assumption]. Qed.
+Print Assumptions c08_demand.
+
+(* ---- grass: baseline x ratio of the model year, blocks of 8, 12, ..., 12, 16 months *)
+Theorem c08_grass : forall n b ratios m, In n supported_horizons -> (m < n)%nat ->
+  nthq (grass_series n b ratios) m =
+    nthq ratios (if (m <? 8)%nat then 0%nat else Nat.min ((m - 8) / 12 + 1) (n / 12 - 1)) * b * 4000 /\
+  (forall k, nthq (grass_series n (k * b) ratios) m == k * nthq (grass_series n b ratios) m) /\
+  (0 <= b -> all_nonneg ratios -> 0 <= nthq (grass_series n b ratios) m).
+Proof.
+  intros. split; [apply grass_nth; assumption|].
+  split; [intros; apply grass_homogeneous; assumption|intros; apply grass_nonneg; assumption].
+Qed.
+Print Assumptions c08_grass.
+
+(* ---- methane SCP: what the code does - the start-up delay is applied TWICE *)
+Theorem c08_scp_two_delays : forall n d s nd f w m, (n <= 1000)%nat -> (m < n)%nat ->
+  nthq (scp_series true n d s nd f w) m ==
+  industrial_scale s nd f w (if (m <? 2 * d)%nat then 0 else nthq scp_pct_table (m - 2 * d)).
+Proof. exact scp_nth. Qed.
+Print Assumptions c08_scp_two_delays.
+
+(* the property's reading ("shifted by the configured start-up delay", once) is false of the code as written *)
+Theorem c08_scp_delay_refuted :
+  exists n d s nd f w m, (m < n)%nat /\
+    ~ nthq (scp_series true n d s nd f w) m == nthq (scp_series_spec true n d s nd f w) m.
+Proof. exact scp_single_delay_refuted. Qed.
+Print Assumptions c08_scp_delay_refuted.
+
+Theorem c08_scp_ramp : forall n d s nd f w, (n <= 1000)%nat ->
+  0 <= s /\ 0 <= nd /\ 0 <= f /\ 0 <= w /\ w <= 100 ->
+  (forall i j, (i <= j)%nat -> (j < n)%nat ->
+     nthq (scp_series true n d s nd f w) i <= nthq (scp_series true n d s nd f w) j) /\
+  (forall m, (m < n)%nat -> 0 <= nthq (scp_series true n d s nd f w) m /\
+     nthq (scp_series true n d s nd f w) m <= industrial_scale s nd f w 15) /\
+  (forall k m, (m < n)%nat -> nthq (scp_series true n d s nd (k * f) w) m == k * nthq (scp_series true n d s nd f w) m).
+Proof.
+  intros n d s nd f w Hn Hok. split; [intros; apply scp_monotone; assumption|].
+  split; [intros; apply scp_range; assumption|intros; apply scp_homogeneous; assumption].
+Qed.
+Print Assumptions c08_scp_ramp.
+
+(* ---- cellulosic sugar: one delay, ramp table, plateau *)
+Theorem c08_cs : forall n d s nd f w, (n <= 1000)%nat ->
+  (forall m, (m < n)%nat -> nthq (cs_series true n d s nd f w) m ==
+     industrial_scale s nd f w (if (m <? d)%nat then 0 else nthq cs_pct_table (m - d))) /\
+  (0 <= s /\ 0 <= nd /\ 0 <= f /\ 0 <= w /\ w <= 100 ->
+   (forall i j, (i <= j)%nat -> (j < n)%nat ->
+      nthq (cs_series true n d s nd f w) i <= nthq (cs_series true n d s nd f w) j) /\
+   (forall m, (m < n)%nat -> 0 <= nthq (cs_series true n d s nd f w) m /\
+      nthq (cs_series true n d s nd f w) m <= industrial_scale s nd f w (95 # 10))) /\
+  (forall k m, (m < n)%nat -> nthq (cs_series true n d s nd (k * f) w) m == k * nthq (cs_series true n d s nd f w) m).
+Proof.
+  intros n d s nd f w Hn. split; [intros; apply cs_nth; assumption|].
+  split; [|intros; apply cs_homogeneous; assumption].
+  intro Hok. split; [intros; apply cs_monotone; assumption|intros; apply cs_range; assumption].
+Qed.
+Print Assumptions c08_cs.
+
+(* ---- seaweed farm area: constant during the delay, then linear, capped at the maximum *)
+Theorem c08_built_area : forall n d nf mf m, (m < n)%nat ->
+  nthq (seaweed_built_area true n d nf mf) m <= seaweed_max_area mf /\
+  ((m < d)%nat -> nthq (seaweed_built_area true n d nf mf) m ==
+     (if Qlt_bool (seaweed_max_area mf) (seaweed_init_area nf) then seaweed_max_area mf else seaweed_init_area nf)) /\
+  ((d <= m)%nat -> nthq (seaweed_built_area true n d nf mf) m ==
+     (let x := seaweed_init_area nf + qnat (m - d) * (seaweed_new_area_global * nf) in
+      if Qlt_bool (seaweed_max_area mf) x then seaweed_max_area mf else x)).
+Proof.
+  intros n d nf mf m Hm. split; [apply built_area_capped; exact Hm|].
+  split; intro; [apply built_area_before_delay|apply built_area_after_delay]; assumption.
+Qed.
+Print Assumptions c08_built_area.
+
+(* ---- initial stored food: stock at the end of the month before the start (January wraps to December) *)
+Theorem c08_stored : forall s start r p w,
+  stored_initial s start r p w ==
+    (nthq s ((start + 10) mod 12) * p / 100 - list_min s * r) * 4000000 / 1000000000 * (1 - w / 100) /\
+  stock_before s 1 = nthq s 11 /\ stock_before s 5 = nthq s 3 /\
+  (stored_ok s start r p = true -> 0 <= w -> w <= 100 -> 0 <= stored_initial s start r p w).
+Proof.
+  intros. split; [apply stored_closed_form|]. split; [reflexivity|]. split; [reflexivity|apply stored_nonneg].
+Qed.
+Print Assumptions c08_stored.
+
+(* ---- non-vacuity *)
+Example ex_supported : In 48%nat supported_horizons /\ In 120%nat supported_horizons.
+Proof. split; vm_compute; tauto. Qed.
+
+Example ex_scp_values :   (* delay 2: production starts in month 2*2 + 12 = 16, not 14 *)
+  nthq (scp_series true 48 2 1 100 1 0) 15 == 0 /\ 0 < nthq (scp_series true 48 2 1 100 1 0) 16 /\
+  0 < nthq (scp_series_spec true 48 2 1 100 1 0) 14.
+Proof. vm_compute. repeat split; reflexivity || discriminate. Qed.
+
+Example ex_outdoor_hypotheses :
+  let c := Build_crop_in 48 5 250 [1#12;1#12;1#12;1#12;1#12;1#12;1#12;1#12;1#12;1#12;1#12;1#12] (1#2)
+                         [3#4;1#4;1#4;1#2;1#2;3#4;1;1;1] None false 1 1 8 3 2 10 0 true in
+  List.length (cseas c) = 12%nat /\ List.length (crs c) = 9%nat /\ cstart c = 5%nat /\ (cN c <= 120)%nat /\
+  0 < nthq (norel_grown c) 20.
+Proof. vm_compute. repeat split; try reflexivity; lia. Qed.
